@@ -154,10 +154,14 @@ func (p *Program) preDecodeBlocks() ExitReason {
 
 	pc := ProgramCounter(0)
 	for pc < ProgramCounter(n) {
-		if !bitmask.IsStartOfBasicBlock(pc) {
+		// every instruction start begins a run to pre-decode: basic-block starts, and also instructions
+		// that follow an invalid opcode (not a basic-block start, but still executable when the
+		// invocation's initial program counter points there)
+		if !bitmask.IsStartOfInstruction(int(pc)) {
 			pc++
 			continue
 		}
+		isBlockStart := bitmask.IsStartOfBasicBlock(pc)
 
 		block := &BlockMeta{
 			StartPC:    pc,
@@ -166,12 +170,17 @@ func (p *Program) preDecodeBlocks() ExitReason {
 
 		for {
 			if pc >= ProgramCounter(n) {
-				return ExitPanic
+				// the block runs past the end of the code: it ends with the implicit trap of the
+				// zero-extended code, which the engine executes (and charges) when it gets there
+				block.EndPC = p.Instrs[len(p.Instrs)-1].PC
+				block.InstrEnd = len(p.Instrs)
+				block.GasCost = Gas(block.InstrEnd - block.InstrStart)
+				if isBlockStart {
+					p.BlockAt[block.StartPC] = block
+				}
+				break
 			}
 			op := idata[pc]
-			if !IsValidOpcode(op) {
-				return ExitPanic
-			}
 
 			skipLen := skip(int(pc), bitmask)
 
@@ -186,11 +195,15 @@ func (p *Program) preDecodeBlocks() ExitReason {
 
 			decodeOperands(&p.Instrs[idx], idata, bitmask)
 
-			if IsBlockTerminator(op) {
+			// an invalid opcode acts as trap (its handler is instTrapMeta) and so ends the block as well;
+			// it makes the program panic only if it is actually executed
+			if IsBlockTerminator(op) || !IsValidOpcode(op) {
 				block.EndPC = pc
 				block.InstrEnd = len(p.Instrs)
 				block.GasCost = Gas(block.InstrEnd - block.InstrStart)
-				p.BlockAt[block.StartPC] = block
+				if isBlockStart {
+					p.BlockAt[block.StartPC] = block
+				}
 				pc += ProgramCounter(skipLen) + 1
 				break
 			}
